@@ -59,9 +59,35 @@ Proof.
   destruct Hd; simpl; constructor. apply otRound_mono. assumption.
 Qed.
 
+Lemma zdedup_In l x : In x (zdedup l) -> In x l.
+Proof.
+  induction l as [|a l IH]; [tauto|]. destruct l as [|b l']; [tauto|].
+  change (zdedup (a :: b :: l')) with (if Z.eqb a b then zdedup (b :: l') else a :: zdedup (b :: l')).
+  destruct (Z.eqb a b); [intro H; right; apply IH; exact H|].
+  intros [<-|H]; [left; reflexivity|right; apply IH; exact H].
+Qed.
+
+Lemma zdedup_hd l a : HdRel Z.le a l -> HdRel Z.le a (zdedup l).
+Proof.
+  induction l as [|b l IH]; intro H; [constructor|]. destruct l as [|c l']; [exact H|].
+  change (zdedup (b :: c :: l')) with (if Z.eqb b c then zdedup (c :: l') else b :: zdedup (c :: l')).
+  destruct (Z.eqb_spec b c) as [->|Hne].
+  - apply IH. inversion H; subst. constructor. assumption.
+  - inversion H; subst. constructor. assumption.
+Qed.
+
+Lemma zdedup_sorted l : Sorted Z.le l -> Sorted Z.le (zdedup l).
+Proof.
+  induction l as [|a l IH]; intro Hs; [constructor|]. destruct l as [|b l']; [exact Hs|].
+  inversion Hs as [|? ? Hs' Hd]; subst.
+  change (zdedup (a :: b :: l')) with (if Z.eqb a b then zdedup (b :: l') else a :: zdedup (b :: l')).
+  destruct (Z.eqb a b); [apply IH; exact Hs'|].
+  constructor; [apply IH; exact Hs'|apply zdedup_hd; exact Hd].
+Qed.
+
 (* ligature caret positions come out in increasing order *)
 Theorem carets_increasing g : Sorted Z.le (expected_carets g).
-Proof. unfold expected_carets. apply map_sorted, qc_sort_set_sorted. Qed.
+Proof. unfold expected_carets. apply zdedup_sorted, map_sorted, qc_sort_set_sorted. Qed.
 
 (* ... and each one is the rounding of a caret_/vcaret_ anchor coordinate of that glyph *)
 Lemma qc_insert_In x l y : In y (qc_insert x l) -> y = x \/ In y l.
@@ -79,7 +105,7 @@ Qed.
 Theorem carets_from_source g z :
   In z (expected_carets g) -> exists q, In q (caret_coords (mg_anchors g)) /\ z = otRound q.
 Proof.
-  unfold expected_carets. intro H. apply in_map_iff in H. destruct H as [q [<- Hq]].
+  unfold expected_carets. intro H. apply zdedup_In in H. apply in_map_iff in H. destruct H as [q [<- Hq]].
   exists q. split; [apply qc_sort_set_In; exact Hq|reflexivity].
 Qed.
 
